@@ -280,7 +280,7 @@ theorem enter_finish_nx (t : Ty) (q : Params) (c : Bool) (tag : Nat) (content : 
     have hpar := tlv_parse 0 c tag content [] (by decide) htag (by omega)
     rw [List.append_nil] at hpar
     rw [hpar]
-    simp only [tlv_length, Nat.lt_irrefl, gt_iff_lt, if_false]
+    simp only [tlv_length, Nat.lt_irrefl, gt_iff_lt, if_false, take_tlv]
     have htok : tagOk t q ⟨0, c, tag, content.length, (header 0 c tag content.length).length⟩ = true := by
       rcases hexp with h | h <;> simp [tagOk, hp, h]
     have hnu : needsUnwrap t q = false := by simp [needsUnwrap, hp]
@@ -300,7 +300,7 @@ theorem enter_finish_nx (t : Ty) (q : Params) (c : Bool) (tag : Nat) (content : 
     have hpar := tlv_parse 2 c n content [] (by decide) hn' (by omega)
     rw [List.append_nil] at hpar
     rw [hpar]
-    simp only [tlv_length, Nat.lt_irrefl, gt_iff_lt, if_false]
+    simp only [tlv_length, Nat.lt_irrefl, gt_iff_lt, if_false, take_tlv]
     have htok : tagOk t q ⟨2, c, n, content.length, (header 2 c n content.length).length⟩ = true := by
       simp [tagOk, hp]
     have hnu : needsUnwrap t q = false := by simp [needsUnwrap, hp, hex]
@@ -361,7 +361,7 @@ theorem enter_tlv (t : Ty) (q : Params) (cls : Nat) (c : Bool) (tag : Nat) (cont
   have hpar := tlv_parse cls c tag content [] hcls htag hlen
   rw [List.append_nil] at hpar
   rw [hpar]
-  simp only [tlv_length, Nat.lt_irrefl, gt_iff_lt, if_false, htok, Bool.not_true, Bool.false_eq_true, hnu]
+  simp only [tlv_length, Nat.lt_irrefl, gt_iff_lt, if_false, htok, Bool.not_true, Bool.false_eq_true, hnu, take_tlv]
 
 theorem needsUnwrap_off_false (t : Ty) {q : Params} (h : needsUnwrap_off q) : needsUnwrap t q = false := by
   unfold needsUnwrap
